@@ -1,4 +1,6 @@
-import Ccp.Proofs.Brace
+import Ccp.Proofs.BraceTree
+import Ccp.Props.C02
+import Ccp.Props.C03
 /-!
 # C08 — brace-delimited configs become an indentation tree that mirrors the nesting
 
@@ -7,7 +9,7 @@ Property theorems only.  Specification (`Stmt`, `flatten`, `treeParents`, `Layou
 `Ccp/Proofs/Brace.lean`.
 -/
 namespace Ccp.C08
-open Ccp.Brace Ccp.Py
+open Ccp.Brace Ccp.Py Ccp.Tree
 
 /-- the width `CiscoConfParse(syntax='junos')` indents with is the property's "four spaces"
 (table lemma over the generated constant) -/
@@ -73,6 +75,66 @@ theorem missing_close_errors_partial (L : Layout) (T : List Stmt) (hT : ListOk T
   exact braceText_missing_close _ a b hbal (fun c hc => hq c (hsub c hc))
     (fun x hx => renderList_notab L hL T [] 0 hT x (hsub x hx)) hhead
 
+/-! ### on the shared tree model (C01–C03) -/
+
+/-- the bootstrap options of the model are the tables of `/repo`: `'#'` is the junos comment
+delimiter and junos is a brace syntax (no banner / macro pass) -/
+theorem junos_tables :
+    Gen.syntaxCommentDelimiters.lookup "junos" = some ["#"] ∧ "junos" ∈ Gen.allBraceSyntax ∧
+    junosCfg.delims = ['#'] := by decide
+
+/-- **The local parent rule is C02's rule** on configuration lines: for every list of lines
+none of which is blank or a comment, pass 1 of the shared bootstrap model — which
+`Ccp.C02.linkByIndent_eq_spec` proves equal to `specParent` — gives every line the parent
+that `indentParents` (nearest preceding line with strictly smaller indentation) gives it,
+a root being its own parent (`selfRoots`). -/
+theorem local_rule_is_specParent (cfg : Cfg) (ls : List Str)
+    (hcfg : ∀ l ∈ ls, isConfigLine cfg l = true) :
+    linkByIndent cfg ls = selfRoots 0 (indentParents ls) ∧
+    ∀ i, i < ls.length → (selfRoots 0 (indentParents ls))[i]? = some (specParent (ls.map (info cfg)) i) := by
+  have h := linkByIndent_eq_local cfg ls hcfg
+  exact ⟨h, fun i hi => h ▸ (Ccp.C02.linkByIndent_eq_spec cfg ls).2 i hi⟩
+
+/-- **Parents, on the shared tree builder.**  For a well-formed statement tree none of whose
+statements begins with `#` (`hc`, stated on the converted lines: no line is a comment for the
+bootstrap; a `#` line under a deeper line is F32), the parent links that the bootstrap verified
+by C01–C03 computes on the converted lines are the tree parents: every statement's parent is the
+statement that opened its innermost enclosing block, top-level statements are roots.
+Pass 1 (`linkByIndent`) is the whole bootstrap of a brace syntax; the second conjunct says the
+same of the full `parse` of the indentation syntaxes when no converted line happens to look
+like a banner start. -/
+theorem flatten_parent_shared (T : List Stmt) (hT : ListOk T)
+    (hc : ∀ l ∈ flatten T, isComment junosCfg l = false) :
+    linkByIndent junosCfg (flatten T) = selfRoots 0 (treeParents T) ∧
+    ((∀ l ∈ flatten T, isBannerStart l = false) →
+      (parse junosCfg (flatten T)).texts = flatten T ∧
+      (parse junosCfg (flatten T)).parents = selfRoots 0 (treeParents T)) := by
+  have h1 : linkByIndent junosCfg (flatten T) = selfRoots 0 (treeParents T) := by
+    rw [linkByIndent_eq_local junosCfg _ (flatten_isConfigLine junosCfg T hT hc), indentParents_flatten T hT]
+  refine ⟨h1, fun hb => ?_⟩
+  obtain ⟨ht, hp, -⟩ := Ccp.C02.parse_links_eq_spec junosCfg (flatten T) hb (by intro h; cases h) rfl
+  exact ⟨ht, by rw [hp, ← linkByIndent_eq_map, h1]⟩
+
+/-- **`junos_forest`** (the item C03 left open): whatever brace-syntax input is accepted, the
+resulting tree — converted lines, parent links by pass 1 of the shared bootstrap — is a forest
+in the sense of C03 (one parent index per line, no parent after its child), so all of C03's
+theorems about children, ancestors and the family views apply to it; its texts are the
+converted lines. -/
+theorem junos_forest (lines : List Str) (t : T) (h : junosParse lines = .ok t) :
+    Ccp.Tree.Forest t ∧ junosToIos lines = .ok t.texts := by
+  obtain ⟨out, ho, ht, hinv⟩ := junosParse_inv lines t h
+  exact ⟨forest_of_inv hinv, by rw [ht]; exact ho⟩
+
+/-- **The whole parse of a rendered tree**: texts = flattening, parents = tree parents. -/
+theorem junos_tree_partial (L : Layout) (T : List Stmt) (hT : ListOk T) (hL : LayoutOk L)
+    (hc : ∀ l ∈ flatten T, isComment junosCfg l = false)
+    (lines : List Str) (hne : lines ≠ []) (hl : join ['\n'] lines = render L T) :
+    junosParse lines = .ok { texts := flatten T, parents := selfRoots 0 (treeParents T),
+                             keep := (flatten T).map (fun _ => false) } := by
+  unfold junosParse
+  rw [brace_roundtrip_partial L T hT hL lines hne hl]
+  simp only [(flatten_parent_shared T hT hc).1]
+
 /-! ### non-vacuity -/
 
 /-- `system { host-name r1; ports { console type vt100; } }` `version 11.4R7.5;` `# end` -/
@@ -125,6 +187,17 @@ example : LayoutOk exL := by
 example : errOf (junosToIos (splitOn '\n'
     "system\n{    host-name r1;  \n  ports { console type vt100;  \n}\n\nversion 11.4R7.5;\n\r\n# end".toList))
     = some .parseException := by
+  decide +kernel
+
+/-- the shared bootstrap on the converted lines of the example (the `#` line is a root) -/
+example : linkByIndent junosCfg (flatten exT) = [0, 0, 0, 2, 4, 5] := by decide +kernel
+
+example : selfRoots 0 (treeParents exT) = [0, 0, 0, 2, 4, 5] := by decide +kernel
+
+/-- the hypothesis `hc` of `flatten_parent_shared` holds for the example without its comment -/
+example : ∀ l ∈ flatten (exT.take 2), isComment junosCfg l = false := by decide +kernel
+
+example : (junosParse (splitOn '\n' (render exL exT))).toOption.map (·.parents) = some [0, 0, 0, 2, 4, 5] := by
   decide +kernel
 
 end Ccp.C08
